@@ -684,6 +684,7 @@ impl Scenario for StakeScen {
         };
         self.setup(p, bal);
         self.seed = seed;
+        self.trace = trace;
         self.header(seed, trace)
     }
 
